@@ -117,7 +117,7 @@ func genCase(t *rapid.T) Case {
 	}
 	c.HookSeed = hookSeed(t)
 	c.Both = !reordered && rapid.IntRange(0, 2).Draw(t, "both") == 0
-	c.Nested = rapid.IntRange(0, 4).Draw(t, "nested") == 0
+	c.Nested = rapid.IntRange(0, 4).Draw(t, "nested") == 0 && !pbt.Open("C10", "nested-key")
 	return c
 }
 
@@ -338,6 +338,9 @@ func runCase(c Case) (res pbt.Result) {
 
 func features(c Case) []string {
 	var f []string
+	if c.Nested {
+		f = append(f, "nested-key")
+	}
 	arr := et.Model(c.Events, c.OOOMs)
 	last := map[string]int64{}
 	perKey := map[string][]int64{}
